@@ -381,8 +381,22 @@ func (x *Exec) indexAddr(st *State, fr *Frame, in *ssa.IndexAddr) ([]Out, Value)
 		if b.cell == nil {
 			fail("index of nil array pointer")
 		}
-		arr := getPath(st.store[b.cell], b.path).(*Tuple)
-		return x.elemPtr(st, fr, b.cell, b.path, 0, mkInt(int64(len(arr.el))), idx, in)
+		at, ok := in.X.Type().Underlying().(*types.Pointer).Elem().Underlying().(*types.Array)
+		if !ok {
+			fail("IndexAddr through pointer to non-array")
+		}
+		if b.sym != nil {
+			// element of a symbolically indexed aggregate: inner index must be concrete
+			i, ok := concreteInt(idx)
+			if !ok {
+				fail("nested symbolic index")
+			}
+			if i < 0 || int64(i) >= at.Len() {
+				return []Out{{st: st, kind: oPanic, msg: "index out of range"}}, nil
+			}
+			return nil, &Ptr{cell: b.cell, path: appendPath(b.path, i), sym: b.sym}
+		}
+		return x.elemPtr(st, fr, b.cell, b.path, 0, mkInt(at.Len()), idx, in)
 	case *SliceV:
 		if b.cell == nil {
 			if x.safety {
